@@ -4,6 +4,7 @@ import (
 	"context"
 	"fmt"
 	"runtime"
+	"strings"
 	"sync"
 	"sync/atomic"
 	"testing"
@@ -328,6 +329,198 @@ func TestC14Release(t *testing.T) {
 				f = fail("C14", "scope-released", fmt.Sprintf("parentScope=%v", useParentScope), "%d of %d closed scope objects are still reachable after GC (provider and parent alive)", as, len(scopeHandles))
 			} else if !ok {
 				f = fail("C14", "instances-released", fmt.Sprintf("failed-creates=%v", failedCreates > 0), "%d of %d instances created during the cycles are still reachable after their scopes were closed and GC ran", ai, len(handles))
+			}
+		}
+		if f != nil {
+			if isKnown(f) {
+				col.Excluded()
+				return
+			}
+			rt.Fatalf("VIOLATION %s\n%s", f, canon)
+		}
+	})
+}
+
+// TestC14CreateVsClose: a child scope is being created while its parent is
+// closed. Whatever the creation returns, once everything is let go nothing of
+// it may stay reachable from the (still open) provider, and a scope that is
+// handed out with a nil error is one the caller can use.
+func TestC14CreateVsClose(t *testing.T) {
+	col := evid.New("C14", "creation-overlapping-close", "two-thread programs against a long-lived provider: thread A creates a child of a scope P (nil / Background / cancellable context, P at depth 1-2) and is parked at the n-th schedule point inside CreateScope or at a constructor entry/exit of an initializer; thread B closes P (or P's parent) to completion; A is released; all references are dropped; oracle: a creation that returns a nil error returns a scope that is not already closed (or was closed only after the creation returned), and after GC neither P, the child nor the instances created on the way are reachable although the provider is still open; goroutine count back at the baseline; non-trivial = A was parked")
+	defer col.Flush()
+	rapid.Check(t, func(rt *rapid.T) {
+		o := kit.FullOpts()
+		o.Lifetimes = []int{kit.Singleton, kit.Scoped, kit.Scoped, kit.Transient}
+		cfg := kit.GenConfig(rt, o)
+		w, err := kit.NewWorld(cfg)
+		if err != nil {
+			rt.Fatal(err)
+		}
+		w.HoldArgs = true
+		var mu sync.Mutex
+		var instHandles []func() bool
+		collecting := false
+		w.OnMade = func(obj any) {
+			mu.Lock()
+			if collecting {
+				instHandles = append(instHandles, kit.WeakOf(obj))
+			}
+			mu.Unlock()
+		}
+		coll := godi.NewCollection()
+		if err := w.RegisterAll(coll, nil); err != nil {
+			rt.Fatalf("registration failed: %v", err)
+		}
+		p, err := coll.Build()
+		if err != nil {
+			col.Case(false, cfg.String(), nil, "build-failed(not judged here)")
+			return
+		}
+		defer p.Close()
+		for i := 0; i < 3; i++ {
+			if s, err := p.CreateScope(context.Background()); err == nil {
+				_ = s.Close()
+			}
+		}
+		runtime.GC()
+		time.Sleep(time.Millisecond)
+		base := runtime.NumGoroutine()
+		mu.Lock()
+		collecting = true
+		mu.Unlock()
+
+		depth := rapid.IntRange(1, 2).Draw(rt, "depth")
+		ctxKind := rapid.IntRange(0, 2).Draw(rt, "ctx")
+		closeTop := rapid.Bool().Draw(rt, "closeTop")
+		gateKind := rapid.SampledFrom([]int{kit.GateInternal, kit.GateInternal, kit.GateInternal, kit.GateCtorEnter, kit.GateCtorExit}).Draw(rt, "gate")
+		gateN := rapid.IntRange(1, 5).Draw(rt, "gateN")
+		var f *Failure
+		var handles []func() bool
+		parked := false
+		point := ""
+		func() {
+			top, err := p.CreateScope(context.Background())
+			if err != nil {
+				return
+			}
+			handles = append(handles, godi.VerifWeakScope(top))
+			parent := top
+			if depth == 2 {
+				if parent, err = top.CreateScope(nil); err != nil { //nolint
+					_ = top.Close()
+					return
+				}
+				handles = append(handles, godi.VerifWeakScope(parent))
+			}
+			var ctx context.Context
+			var cancel context.CancelFunc
+			switch ctxKind {
+			case 1:
+				ctx = context.Background()
+			case 2:
+				ctx, cancel = context.WithCancel(context.Background())
+			}
+			var goid atomic.Int64
+			count := 0
+			pk := kit.NewParker(func(gp kit.GatePoint) bool {
+				if gp.Goid != goid.Load() || gp.Kind != gateKind || (gp.Kind == kit.GateInternal && !strings.HasPrefix(gp.Point, "scope.CreateScope.")) {
+					return false
+				}
+				count++
+				return count == gateN
+			})
+			w.SetGate(pk.Gate)
+			type res struct {
+				s   godi.Scope
+				err error
+			}
+			ch := make(chan res, 1)
+			go func() {
+				goid.Store(kit.Goid())
+				s, err := parent.CreateScope(ctx)
+				ch <- res{s, err}
+			}()
+			var r res
+			got := false
+			select {
+			case <-pk.Parked():
+				parked, point = true, pk.Hit.Point
+			case r = <-ch:
+				got = true
+			}
+			victim := parent
+			if closeTop {
+				victim = top
+			}
+			closed := make(chan struct{})
+			go func() { _ = victim.Close(); close(closed) }()
+			bDone := kit.WaitOrTimeout(closed, 30*time.Millisecond)
+			pk.Release()
+			if !got {
+				select {
+				case r = <-ch:
+				case <-time.After(20 * time.Second):
+					f = fail("C14", "no-hang", "create", "CreateScope overlapping the Close of its parent did not return")
+					return
+				}
+			}
+			if !kit.WaitOrTimeout(closed, 20*time.Second) {
+				f = fail("C14", "no-hang", "close", "Close overlapping a CreateScope did not return")
+				return
+			}
+			w.SetGate(nil)
+			if r.err == nil && r.s != nil {
+				handles = append(handles, godi.VerifWeakScope(r.s))
+				// the Close had returned before the creation did: what the creation hands out with a nil
+				// error cannot be a scope that this Close has already closed
+				if parked && bDone {
+					if _, gerr := r.s.Get(kit.ScopeType); gerr != nil {
+						f = fail("C14", "failed-creation-leaves-nothing", "closed-scope-returned", "CreateScope returned a nil error and a scope that is already closed (%v): the parent's Close had returned before", firstLine(gerr))
+					}
+				}
+				_ = r.s.Close()
+			}
+			_ = top.Close()
+			if cancel != nil {
+				cancel()
+			}
+		}()
+		mu.Lock()
+		collecting = false
+		insts := append([]func() bool(nil), instHandles...)
+		mu.Unlock()
+		canon := fmt.Sprintf("%s || depth=%d ctx=%d closeTop=%v gate=%d#%d parked=%v at=%s", cfg, depth, ctxKind, closeTop, gateKind, gateN, parked, point)
+		labels := []string{fmt.Sprintf("parked=%v", parked)}
+		if point != "" {
+			labels = append(labels, "at:"+point)
+		}
+		col.Case(parked, canon, canon, labels...)
+		if f == nil && !waitFor(func() bool { return runtime.NumGoroutine() <= base }, 5*time.Second) {
+			f = fail("C14", "goroutines", "create-vs-close", "%d goroutines before, %d five seconds after a creation overlapped a Close", base, runtime.NumGoroutine())
+		}
+		if f == nil {
+			ok := false
+			as, ai := 0, 0
+			for try := 0; try < 8 && !ok; try++ {
+				runtime.GC()
+				runtime.GC()
+				as, ai = 0, 0
+				for _, h := range handles {
+					if h() {
+						as++
+					}
+				}
+				for _, h := range insts {
+					if h() {
+						ai++
+					}
+				}
+				ok = as == 0 && ai == 0
+			}
+			if !ok && as > 0 {
+				f = fail("C14", "scope-released", "create-vs-close", "%d of %d scope objects are still reachable after everything was closed and GC ran (provider alive)", as, len(handles))
+			} else if !ok {
+				f = fail("C14", "instances-released", "create-vs-close", "%d of %d instances are still reachable after everything was closed and GC ran", ai, len(insts))
 			}
 		}
 		if f != nil {
